@@ -1,7 +1,7 @@
 import BpProofs.JsonRt
 /-
-  C04, slot level: every kind of slot value of a `wellTyped` message satisfies `SlotRT2`
-  (BpProofs/JsonRt.lean), given the statement for the messages nested in it.
+  C04, slot level: every kind of slot value of a `wellTyped'` message (BpProofs/JsonGuard.lean)
+  satisfies `SlotRT2` (BpProofs/JsonRt.lean), given the statement for the messages nested in it.
 -/
 namespace Bp
 open Gen
@@ -166,36 +166,35 @@ theorem toDictDefault_none (S : Schema) (E : Enums) (f : FieldD) (hj : FJ f) :
           generalize scalarDef f.ty = k at this n1 n2 n3
           cases k <;> first | exact this | exact absurd rfl n1 | exact absurd rfl n2 | exact absurd rfl (n3 _)
 
-/-! ### `slotOk` (BpModel/Json.lean) constructor by constructor -/
+/-! ### `slotOk'` (BpProofs/JsonGuard.lean) constructor by constructor -/
 
-theorem slotOk_ph (S : Schema) (f : FieldD) (hid sel : Bool) : slotOk S f hid sel .ph = (!sel && !f.optional) := by
-  rw [slotOk]
+theorem slotOk_ph (S : Schema) (f : FieldD) (hid sel : Bool) : slotOk' S f hid sel .ph = (!sel && !f.optional) := by
+  rw [slotOk']
 theorem slotOk_none (S : Schema) (f : FieldD) (hid sel : Bool) :
-    slotOk S f hid sel .none = (f.group.isNone && (f.optional || f.wraps.isSome) && !f.repeated && f.ty != .map) := by
-  rw [slotOk]
+    slotOk' S f hid sel .none = (f.group.isNone && (f.optional || f.wraps.isSome) && !f.repeated && f.ty != .map) := by
+  rw [slotOk']
 theorem slotOk_list (S : Schema) (f : FieldD) (hid sel : Bool) (xs : List Val) :
-    slotOk S f hid sel (.list xs) = (!hid && f.repeated && f.ty != .map && itemsOk S f xs) := by
-  rw [slotOk]
+    slotOk' S f hid sel (.list xs) = (!hid && f.repeated && f.ty != .map && itemsOk' S f xs) := by
+  rw [slotOk']
 theorem slotOk_dict (S : Schema) (f : FieldD) (hid sel : Bool) (ks vs : List Val) :
-    slotOk S f hid sel (.dict ks vs) =
-      (!hid && f.ty == .map && ks.length == vs.length && ks.all (valOfType f.mapK) && mapValsOk S f vs) := by
-  rw [slotOk]
-/-- the body of `wellTyped` -/
+    slotOk' S f hid sel (.dict ks vs) =
+      (!hid && f.ty == .map && ks.length == vs.length && ks.all (valOfType f.mapK) && mapValsOk' S f vs) := by
+  rw [slotOk']
+/-- the body of `wellTyped'` -/
 def bodyOk (S : Schema) (c : Nat) (sl : List Val) (unk : Bytes) (cur : List (Option Nat)) : Bool :=
   unk.isEmpty && sl.length == (fieldsOf S c).length && cur.length == groupsOf S c &&
-    slotsOk S (fieldsOf S c) cur 0 sl
+    slotsOk' S (fieldsOf S c) cur 0 sl
 theorem slotOk_msg (S : Schema) (f : FieldD) (hid sel : Bool) (c : Nat) (sl : List Val) (ow : Bool) (unk : Bytes)
     (cur : List (Option Nat)) :
-    slotOk S f hid sel (.msg c sl ow unk cur) =
-      (!hid && f.ty == .message && f.wraps.isNone && !f.repeated && f.kind == .user c &&
-        (ow || f.optional || sel || eqDefault S f.defKind (.msg c sl ow unk cur)) && bodyOk S c sl unk cur) := by
-  rw [slotOk]; simp only [bodyOk, Bool.and_assoc]
+    slotOk' S f hid sel (.msg c sl ow unk cur) =
+      (!hid && f.ty == .message && f.wraps.isNone && !f.repeated && f.kind == .user c && bodyOk S c sl unk cur) := by
+  rw [slotOk']; simp only [bodyOk, Bool.and_assoc]
 theorem slotOk_leaf (S : Schema) (f : FieldD) (hid sel : Bool) (v : Val) (hl : isLeafVal v = true) (hn : v ≠ .none) :
-    slotOk S f hid sel v = (!hid && !f.repeated && leafOk f v) := by
-  cases v <;> first | (simp [isLeafVal] at hl; done) | exact absurd rfl hn | (rw [slotOk]; all_goals (intros; contradiction))
+    slotOk' S f hid sel v = (!hid && !f.repeated && leafOk f v) := by
+  cases v <;> first | (simp [isLeafVal] at hl; done) | exact absurd rfl hn | (rw [slotOk']; all_goals (intros; contradiction))
 theorem wellTyped_msg (S : Schema) (c : Nat) (sl : List Val) (ow : Bool) (unk : Bytes) (cur : List (Option Nat)) :
-    wellTyped S (.msg c sl ow unk cur) = bodyOk S c sl unk cur := by
-  rw [wellTyped]; rfl
+    wellTyped' S (.msg c sl ow unk cur) = bodyOk S c sl unk cur := by
+  rw [wellTyped']; rfl
 
 /-! ### unset, None and leaf slots -/
 
@@ -203,7 +202,7 @@ theorem jrt_atom (S : Schema) (E : Enums) (cs : KeyCase) (v : Val) (h : dAtom v 
   cases v <;> first | (simp [dAtom] at h; done) | (rw [jrt]; all_goals (intros; contradiction))
 
 theorem rt_ph (S : Schema) (E : Enums) (cs : KeyCase) (f : FieldD) (hid sel : Bool) (hj : FJ f)
-    (h : slotOk S f hid sel .ph = true) : SlotRT2 S E cs f hid sel .ph := by
+    (h : slotOk' S f hid sel .ph = true) : SlotRT2 S E cs f hid sel .ph := by
   rw [slotOk_ph] at h
   simp only [Bool.and_eq_true, Bool.not_eq_true'] at h
   obtain ⟨hs, ho⟩ := h
@@ -213,7 +212,7 @@ theorem rt_ph (S : Schema) (E : Enums) (cs : KeyCase) (f : FieldD) (hid sel : Bo
   refine ⟨fun j hjj => (by rw [hn] at hjj; cases hjj), fun _ => ⟨rfl, Or.inl (by simp [freshVal, ho])⟩⟩
 
 theorem rt_none (S : Schema) (E : Enums) (cs : KeyCase) (f : FieldD) (hid sel : Bool) (hs : HS f hid sel)
-    (h : slotOk S f hid sel .none = true) : SlotRT2 S E cs f hid sel .none := by
+    (h : slotOk' S f hid sel .none = true) : SlotRT2 S E cs f hid sel .none := by
   rw [slotOk_none] at h
   simp only [Bool.and_eq_true, Bool.not_eq_true', bne_iff_ne, ne_eq, Option.isNone_iff_eq_none] at h
   obtain ⟨⟨⟨hg, ho⟩, hr⟩, hmap⟩ := h
@@ -264,17 +263,17 @@ theorem flat_of_leafOk (S : Schema) (E : Enums) (cs : KeyCase) (f : FieldD) (hid
   · simp only [hm, Bool.false_eq_true, if_false, Bool.and_eq_true] at hok ⊢
     simp [hh, hr, hok.1, hok.2]
 
-theorem leaf_facts (f : FieldD) (v : Val) (hl : isLeafVal v = true) (hn : v ≠ .none) (sel : Bool) :
-    dAtom v = true ∧ presentSlot f sel v = true ∧ isSentinel f v = false ∧ onWireOf v = false := by
+theorem leaf_facts (S : Schema) (f : FieldD) (v : Val) (hl : isLeafVal v = true) (hn : v ≠ .none) (sel : Bool) :
+    dAtom v = true ∧ keptSlot S f sel v = true ∧ isSentinel f v = false ∧ onWireOf v = false := by
   cases v <;> first | (simp [isLeafVal] at hl; done) | exact absurd rfl hn | exact ⟨rfl, rfl, rfl, rfl⟩
 
 theorem rt_leaf (S : Schema) (E : Enums) (cs : KeyCase) (f : FieldD) (hid sel : Bool) (v : Val) (hj : FJ f)
     (he : enumOk (enumOf E f) = true)
-    (hl : isLeafVal v = true) (hn : v ≠ .none) (h : slotOk S f hid sel v = true) : SlotRT2 S E cs f hid sel v := by
+    (hl : isLeafVal v = true) (hn : v ≠ .none) (h : slotOk' S f hid sel v = true) : SlotRT2 S E cs f hid sel v := by
   rw [slotOk_leaf S f hid sel v hl hn] at h
   simp only [Bool.and_eq_true, Bool.not_eq_true'] at h
   obtain ⟨⟨hh, hr⟩, hok⟩ := h
-  obtain ⟨ha, hp, hsn, how⟩ := leaf_facts f v hl hn sel
+  obtain ⟨ha, hp, hsn, how⟩ := leaf_facts S f v hl hn sel
   have hflat := flat_of_leafOk S E cs f hid sel v hj hl hn hh hr hok
   have hjrt := jrt_atom S E cs v ha
   constructor
@@ -369,8 +368,8 @@ theorem listDEqv_atoms (S : Schema) (xs : List Val) (h : ∀ x ∈ xs, dAtom x =
   | cons x xs ih => exact ListDEqv.consAtom x xs xs (h x (by simp)) (ih (fun y hy => h y (by simp [hy])))
 
 theorem itemsOk_cons_nonmsg (S : Schema) (f : FieldD) (x : Val) (xs : List Val) (hx : isMsgVal x = false) :
-    itemsOk S f (x :: xs) = (leafOk f x && itemsOk S f xs) := by
-  cases x <;> first | (simp [isMsgVal] at hx; done) | (rw [itemsOk]; all_goals (intros; contradiction))
+    itemsOk' S f (x :: xs) = (leafOk f x && itemsOk' S f xs) := by
+  cases x <;> first | (simp [isMsgVal] at hx; done) | (rw [itemsOk']; all_goals (intros; contradiction))
 
 theorem msg_or_not (a : Val) : (∃ c sl ow unk cur, a = Val.msg c sl ow unk cur) ∨ isMsgVal a = false := by
   cases a <;> first | (left; exact ⟨_, _, _, _, _, rfl⟩) | (right; rfl)
@@ -378,12 +377,12 @@ theorem msg_or_not (a : Val) : (∃ c sl ow unk cur, a = Val.msg c sl ow unk cur
 /-- a list in a field that does not hold user messages: every item is a well-typed leaf -/
 theorem itemsOk_leaf (S : Schema) (f : FieldD) (xs : List Val)
     (hnu : ¬ ((f.ty == PType.message) = true ∧ f.wraps = Option.none ∧ ∃ c, f.kind = .user c))
-    (h : itemsOk S f xs = true) : ∀ x ∈ xs, leafOk f x = true := by
+    (h : itemsOk' S f xs = true) : ∀ x ∈ xs, leafOk f x = true := by
   induction xs with
   | nil => intro x hx; cases hx
   | cons a as ih =>
     rcases msg_or_not a with ⟨c, sl, ow, unk, cur, rfl⟩ | h'
-    · rw [itemsOk] at h
+    · rw [itemsOk'] at h
       simp only [Bool.and_eq_true, beq_iff_eq, Option.isNone_iff_eq_none] at h
       obtain ⟨⟨⟨⟨⟨⟨⟨hty, hwr⟩, hkc⟩, _⟩, _⟩, _⟩, _⟩, _⟩ := h
       exact absurd ⟨by simpa using hty, hwr, c, hkc⟩ hnu
@@ -398,12 +397,12 @@ theorem itemsOk_leaf (S : Schema) (f : FieldD) (xs : List Val)
 /-- a list in a repeated user-message field: every item is a message of the field's class -/
 theorem itemsOk_user (S : Schema) (f : FieldD) (c : Nat) (xs : List Val)
     (hm : (f.ty == PType.message) = true) (hw : f.wraps = Option.none) (hk : f.kind = .user c)
-    (h : itemsOk S f xs = true) : ∀ x ∈ xs, ∃ sl ow unk cur, x = Val.msg c sl ow unk cur ∧ bodyOk S c sl unk cur = true := by
+    (h : itemsOk' S f xs = true) : ∀ x ∈ xs, ∃ sl ow unk cur, x = Val.msg c sl ow unk cur ∧ bodyOk S c sl unk cur = true := by
   induction xs with
   | nil => intro x hx; cases hx
   | cons a as ih =>
     rcases msg_or_not a with ⟨c', sl, ow, unk, cur, rfl⟩ | h'
-    · rw [itemsOk] at h
+    · rw [itemsOk'] at h
       simp only [Bool.and_eq_true, beq_iff_eq, Option.isNone_iff_eq_none] at h
       obtain ⟨⟨⟨⟨⟨⟨⟨_, _⟩, hkc⟩, h1⟩, h2⟩, h3⟩, h4⟩, hrest⟩ := h
       rw [hk] at hkc
@@ -435,11 +434,11 @@ theorem jrt_msg (S : Schema) (E : Enums) (cs : KeyCase) (c : Nat) (sl : List Val
     (cur : List (Option Nat)) :
     jrt S E cs (.msg c sl ow unk cur) = .msg c (jrtSlots S E cs (fieldsOf S c) cur 0 sl) true unk cur := by rw [jrt]
 
-/-- what `slotOk` and the schema guard say about a list slot -/
+/-- what `slotOk'` and the schema guard say about a list slot -/
 theorem list_common (S : Schema) (f : FieldD) (hid sel : Bool) (xs : List Val) (hj : FJ f) (hs : HS f hid sel)
-    (h : slotOk S f hid sel (.list xs) = true) :
+    (h : slotOk' S f hid sel (.list xs) = true) :
     hid = false ∧ sel = false ∧ f.repeated = true ∧ (f.ty == PType.map) = false ∧ f.optional = false ∧
-      f.wraps = Option.none ∧ itemsOk S f xs = true := by
+      f.wraps = Option.none ∧ itemsOk' S f xs = true := by
   rw [slotOk_list] at h
   simp only [Bool.and_eq_true, Bool.not_eq_true', bne_iff_ne, ne_eq] at h
   obtain ⟨⟨⟨hh, hr⟩, hmap⟩, hit⟩ := h
@@ -486,7 +485,7 @@ theorem rt_list_omitted (S : Schema) (E : Enums) (cs : KeyCase) (f : FieldD) (xs
 theorem rt_list_flat (S : Schema) (E : Enums) (cs : KeyCase) (f : FieldD) (hid sel : Bool) (xs : List Val) (hj : FJ f)
     (hs : HS f hid sel) (he : enumOk (enumOf E f) = true)
     (hnu : ¬ ((f.ty == PType.message) = true ∧ f.wraps = Option.none ∧ ∃ c, f.kind = .user c))
-    (h : slotOk S f hid sel (.list xs) = true) : SlotRT2 S E cs f hid sel (.list xs) := by
+    (h : slotOk' S f hid sel (.list xs) = true) : SlotRT2 S E cs f hid sel (.list xs) := by
   obtain ⟨hh, hsel, hr, hmap, ho, hw, hit⟩ := list_common S f hid sel xs hj hs h
   subst hh; subst hsel
   have hleaf := itemsOk_leaf S f xs hnu hit
@@ -530,7 +529,7 @@ theorem rt_list_flat (S : Schema) (E : Enums) (cs : KeyCase) (f : FieldD) (hid s
 /-- repeated user messages, given the round trip of the items -/
 theorem rt_list_user (S : Schema) (E : Enums) (cs : KeyCase) (f : FieldD) (hid sel : Bool) (xs : List Val) (c : Nat)
     (hj : FJ f) (hs : HS f hid sel) (hm : (f.ty == PType.message) = true) (hk : f.kind = .user c)
-    (h : slotOk S f hid sel (.list xs) = true)
+    (h : slotOk' S f hid sel (.list xs) = true)
     (hitems : fromDictItems S E c (toDictList S E cs false xs) = .ok (jrtList S E cs xs))
     (hrel : ListDEqv S xs (jrtList S E cs xs)) : SlotRT2 S E cs f hid sel (.list xs) := by
   obtain ⟨hh, hsel, hr, hmap, ho, hw, hit⟩ := list_common S f hid sel xs hj hs h
@@ -551,17 +550,17 @@ theorem rt_list_user (S : Schema) (E : Enums) (cs : KeyCase) (f : FieldD) (hid s
 /-! ### map fields -/
 
 theorem mapValsOk_cons_nonmsg (S : Schema) (f : FieldD) (x : Val) (xs : List Val) (hx : isMsgVal x = false) :
-    mapValsOk S f (x :: xs) = ((f.mapV != PType.message && valOfType f.mapV x) && mapValsOk S f xs) := by
-  cases x <;> first | (simp [isMsgVal] at hx; done) | (rw [mapValsOk]; all_goals (intros; contradiction))
+    mapValsOk' S f (x :: xs) = ((f.mapV != PType.message && valOfType f.mapV x) && mapValsOk' S f xs) := by
+  cases x <;> first | (simp [isMsgVal] at hx; done) | (rw [mapValsOk']; all_goals (intros; contradiction))
 
 /-- `map<string, scalar>`: every value is a well-typed scalar -/
 theorem mapValsOk_scalar (S : Schema) (f : FieldD) (vs : List Val) (hv : (f.mapV == PType.message) = false)
-    (h : mapValsOk S f vs = true) : ∀ x ∈ vs, valOfType f.mapV x = true := by
+    (h : mapValsOk' S f vs = true) : ∀ x ∈ vs, valOfType f.mapV x = true := by
   induction vs with
   | nil => intro x hx; cases hx
   | cons a as ih =>
     rcases msg_or_not a with ⟨c, sl, ow, unk, cur, rfl⟩ | h'
-    · rw [mapValsOk] at h
+    · rw [mapValsOk'] at h
       simp only [Bool.and_eq_true] at h
       have := h.1.1.1.1.1.1
       rw [hv] at this; cases this
@@ -574,13 +573,13 @@ theorem mapValsOk_scalar (S : Schema) (f : FieldD) (vs : List Val) (hv : (f.mapV
 
 /-- `map<string, Msg>`: every value is a message of the value class -/
 theorem mapValsOk_user (S : Schema) (f : FieldD) (c : Nat) (vs : List Val) (hv : (f.mapV == PType.message) = true)
-    (hk : f.mapVKind = .user c) (h : mapValsOk S f vs = true) :
+    (hk : f.mapVKind = .user c) (h : mapValsOk' S f vs = true) :
     ∀ x ∈ vs, ∃ sl ow unk cur, x = Val.msg c sl ow unk cur ∧ bodyOk S c sl unk cur = true := by
   induction vs with
   | nil => intro x hx; cases hx
   | cons a as ih =>
     rcases msg_or_not a with ⟨c', sl, ow, unk, cur, rfl⟩ | h'
-    · rw [mapValsOk] at h
+    · rw [mapValsOk'] at h
       simp only [Bool.and_eq_true, beq_iff_eq] at h
       obtain ⟨⟨⟨⟨⟨⟨_, hkc⟩, h1⟩, h2⟩, h3⟩, h4⟩, hrest⟩ := h
       rw [hk] at hkc
@@ -595,8 +594,8 @@ theorem mapValsOk_user (S : Schema) (f : FieldD) (c : Nat) (vs : List Val) (hv :
       exact absurd (by simpa using hv) h.1.1
 
 theorem dict_common (S : Schema) (f : FieldD) (hid sel : Bool) (ks vs : List Val) (hj : FJ f) (hs : HS f hid sel)
-    (h : slotOk S f hid sel (.dict ks vs) = true) :
-    hid = false ∧ sel = false ∧ f.ty = PType.map ∧ (∀ k ∈ ks, ∃ s, k = Val.str s) ∧ mapValsOk S f vs = true := by
+    (h : slotOk' S f hid sel (.dict ks vs) = true) :
+    hid = false ∧ sel = false ∧ f.ty = PType.map ∧ (∀ k ∈ ks, ∃ s, k = Val.str s) ∧ mapValsOk' S f vs = true := by
   rw [slotOk_dict] at h
   simp only [Bool.and_eq_true, Bool.not_eq_true', beq_iff_eq, List.all_eq_true] at h
   obtain ⟨⟨⟨⟨hh, hty⟩, _⟩, hks⟩, hvs⟩ := h
@@ -626,7 +625,7 @@ theorem rt_dict_omitted (S : Schema) (E : Enums) (cs : KeyCase) (f : FieldD) (ks
 /-- `map<string, scalar>` -/
 theorem rt_dict_flat (S : Schema) (E : Enums) (cs : KeyCase) (f : FieldD) (hid sel : Bool) (ks vs : List Val) (hj : FJ f)
     (hs : HS f hid sel) (hv : (f.mapV == PType.message) = false)
-    (h : slotOk S f hid sel (.dict ks vs) = true) : SlotRT2 S E cs f hid sel (.dict ks vs) := by
+    (h : slotOk' S f hid sel (.dict ks vs) = true) : SlotRT2 S E cs f hid sel (.dict ks vs) := by
   obtain ⟨hh, hsel, hty, hks, hvs⟩ := dict_common S f hid sel ks vs hj hs h
   subst hh; subst hsel
   have hm : (f.ty == PType.map) = true := by simp [hty]
@@ -646,7 +645,7 @@ theorem rt_dict_flat (S : Schema) (E : Enums) (cs : KeyCase) (f : FieldD) (hid s
 /-- `map<string, Msg>`, given the round trip of the values -/
 theorem rt_dict_user (S : Schema) (E : Enums) (cs : KeyCase) (f : FieldD) (hid sel : Bool) (ks vs : List Val) (c : Nat)
     (hj : FJ f) (hs : HS f hid sel) (hv : (f.mapV == PType.message) = true) (hk : f.mapVKind = .user c)
-    (h : slotOk S f hid sel (.dict ks vs) = true)
+    (h : slotOk' S f hid sel (.dict ks vs) = true)
     (hvals : fromDictMapVals S E c (toDictMapVals S E cs false vs) = .ok (jrtList S E cs vs))
     (hrel : ListDEqv S vs (jrtList S E cs vs)) : SlotRT2 S E cs f hid sel (.dict ks vs) := by
   obtain ⟨hh, hsel, hty, hks, hvs⟩ := dict_common S f hid sel ks vs hj hs h
@@ -672,7 +671,7 @@ theorem rt_dict_user (S : Schema) (E : Enums) (cs : KeyCase) (f : FieldD) (hid s
 theorem bodyOk_spec (S : Schema) (c : Nat) (sl : List Val) (unk : Bytes) (cur : List (Option Nat))
     (h : bodyOk S c sl unk cur = true) :
     unk = [] ∧ sl.length = (fieldsOf S c).length ∧ cur.length = groupsOf S c ∧
-      slotsOk S (fieldsOf S c) cur 0 sl = true := by
+      slotsOk' S (fieldsOf S c) cur 0 sl = true := by
   unfold bodyOk at h
   simp only [Bool.and_eq_true, beq_iff_eq, List.isEmpty_iff] at h
   exact ⟨h.1.1.1, h.1.1.2, h.1.2, h.2⟩
@@ -681,7 +680,7 @@ theorem bodyOk_spec (S : Schema) (c : Nat) (sl : List Val) (unk : Bytes) (cur : 
     the sub-message itself -/
 theorem rt_msg_slot (S : Schema) (E : Enums) (cs : KeyCase) (f : FieldD) (hid sel : Bool) (c : Nat) (sl : List Val)
     (ow : Bool) (unk : Bytes) (cur : List (Option Nat))
-    (h : slotOk S f hid sel (.msg c sl ow unk cur) = true)
+    (h : slotOk' S f hid sel (.msg c sl ow unk cur) = true)
     (hkv : fromDictKV S E c ((toDictKVs S E cs false (fieldsOf S c) cur 0 sl).map (·.1))
         ((toDictKVs S E cs false (fieldsOf S c) cur 0 sl).map (·.2))
       = .ok (emitted2 S E cs (fieldsOf S c) cur 0 sl))
@@ -691,44 +690,37 @@ theorem rt_msg_slot (S : Schema) (E : Enums) (cs : KeyCase) (f : FieldD) (hid se
     SlotRT2 S E cs f hid sel (.msg c sl ow unk cur) := by
   rw [slotOk_msg] at h
   simp only [Bool.and_eq_true, Bool.not_eq_true', beq_iff_eq, Option.isNone_iff_eq_none] at h
-  obtain ⟨⟨⟨⟨⟨⟨hh, hty⟩, hw⟩, hr⟩, hk⟩, hpres⟩, hbody⟩ := h
+  obtain ⟨⟨⟨⟨⟨hh, hty⟩, hw⟩, hr⟩, hk⟩, hbody⟩ := h
   obtain ⟨hunk, _, _, _⟩ := bodyOk_spec S c sl unk cur hbody
   subst hh; subst hunk
   have hm : (f.ty == PType.message) = true := by simp [hty]
+  -- (D46 repair) `to_dict` keeps the sub-message when it is marked, optional, selected, or differs
+  -- from its default: exactly `keptSlot`
   have hts : toDictSlot S E cs false f false sel (.msg c sl ow [] cur) =
-      if (ow || f.optional || sel) = true then some (mkObj (toDictKVs S E cs false (fieldsOf S c) cur 0 sl))
+      if keptSlot S f sel (.msg c sl ow [] cur) = true then
+        some (mkObj (toDictKVs S E cs false (fieldsOf S c) cur 0 sl))
       else Option.none := by
     rw [toDictSlot]
-    simp [hm, hw, hr]
-    -- (D46 repair) the extra disjunct `value != default` adds nothing under the value guard `hpres`:
-    -- an unmarked plain sub-message of a well-typed value equals its default
-    by_cases h1 : ((ow = true ∨ f.optional = true) ∨ sel = true)
-    · simp [h1]
-    · have h2 : eqDefault S f.defKind (Val.msg c sl ow [] cur) = true := by
-        simp only [Bool.or_eq_true] at hpres
-        rcases hpres with h | h
-        · exact absurd h h1
-        · exact h
-      simp [h1, h2]
+    simp only [Bool.false_eq_true, if_false, hm, hw, hr, Option.isNone_none, Bool.not_false, Bool.and_self, if_true,
+      Bool.or_false, keptSlot]
+    rfl
   rw [SlotRT2, hts]
   constructor
   · intro j hjj
     split at hjj
     · rename_i hc
       injection hjj with hjj; subst hjj
-      refine ⟨(by intro e; cases e), ?_, ?_, ?_, rfl, rfl⟩
+      refine ⟨(by intro e; cases e), ?_, ?_, hc, rfl, rfl⟩
       · rw [mkObj, decodeField]
         simp only [hm, if_true, hw, Option.isSome_none, Bool.false_eq_true, if_false, hk, hkv, bind_ok, hcls, jrt_msg]
       · rw [jrt_msg]; exact DEqv.msg c sl _ ow [] cur hrel
-      · exact hc
     · cases hjj
   · intro hn
     split at hn
     · cases hn
     · rename_i hc
-      simp only [Bool.or_eq_true, not_or, Bool.not_eq_true] at hc
-      obtain ⟨⟨how, hopt⟩, hsel⟩ := hc
-      refine ⟨hsel, Or.inr ⟨hopt, ?_, how⟩⟩
-      simpa [how, hopt, hsel] using hpres
+      simp only [keptSlot, Bool.or_eq_true, not_or, Bool.not_eq_true, Bool.not_eq_false'] at hc
+      obtain ⟨⟨⟨how, hopt⟩, hsel⟩, hd⟩ := hc
+      exact ⟨hsel, Or.inr ⟨hopt, hd, how⟩⟩
 
 end Bp
